@@ -12,7 +12,14 @@ _shape = re.compile(r"^(%s)(\d+)$" % "|".join(PREFIXES))
 def user_names(text):
     """function names of the program that have the shape of a generated name -> [[prefix, n], ..]"""
     out = []
-    for n in set(re.findall(r"\bfn\s+([A-Za-z_]\w*)", text)):
+    # top-level functions only: a method (a `fn` inside an impl / trait block) gets a name of its own shape in the Go text
+    # (`_goml_inherent_T_T_m`), it does not share the temporaries' name space
+    top, depth = [], 0
+    for line in text.split("\n"):
+        if depth == 0:
+            top += re.findall(r"^\s*fn\s+([A-Za-z_]\w*)", line)
+        depth += line.count("{") - line.count("}")
+    for n in set(top):
         m = _shape.match(n)
         if m and len(m.group(2)) < 9 and str(int(m.group(2))) == m.group(2):
             out.append([m.group(1), int(m.group(2))])
